@@ -6,8 +6,11 @@ Driver for C14.  A case is a history on one plugin instance:
   rule node <pct>      node meta callback, annotation "<pct/100>" (pct > 0) or absent (pct = -100)
   rule nodebad         node meta callback with an invalid annotation
   rule slo <0|1>       node SLO callback (1 = CFS quota enabled)
+  rule sloshape <k> <enable> <policy>   node SLO callback given by its SHAPE: k 0 nil spec, 1 no BE strategy, 2 strategy
+                       with `enable` and policy 0 unset / 1 cpuset / 2 cfsQuota (the model derives the switch)
+  rule ratioann <k> <pct>   node meta callback given by the annotation: k 0 absent, 1 malformed, 2 value pct/100
   pod <be> <hasSpec> <n> (<req> <lim> <mem>)*     hook call under the rule in force
-  entry <be> <ann> <v2> <s0> <q0> <m0> <n> (<declares> <req> <lim> <mem>)*
+  entry <be> <ann> <v2> <s0> <q0> <m0> <n> (<declares + 2·no-status> <req> <lim> <mem>)*
                        one pod through all six entry paths of the protocol package (ann = annotation shape 0..7,
                        5 = the webhook's dump of this pod), cgroup v1/v2, initial file contents s0 q0 m0
   cb <0|1>             rule callback (0 = node SLO, 1 = node meta) on the pod of the last `entry` as an existing pod
@@ -52,6 +55,7 @@ structure Entry where
   q0  : Int
   m0  : Int
   pod : List (Option Ctr)
+  ids : List Bool   -- per container: has a status with a container id
 
 structure St where
   rule : Rule
@@ -94,7 +98,7 @@ def runEntry (r : Rule) (e : Entry) : List String :=
   ++ (range e.pod.length).flatMap fun i =>
     [s!"ctr {i} nri {showResp (ctrEntry k cfg e.be (ctrFromNri e.ann i))}",
      s!"ctr {i} proxy {showResp (ctrEntry k cfg e.be (ctrFromProxy e.ann i))}",
-     s!"ctr {i} rec {showFiles (applyOut e.v2 init (ctrEntry k cfg e.be (ctrFromReconciler e.pod e.ann i)))}"]
+     s!"ctr {i} rec {showFiles (applyOut e.v2 init (ctrEntry k cfg e.be (ctrFromReconcilerSt (e.ids.getD i true) e.pod e.ann i)))}"]
 
 /-- files of the "existing pod" (pod, containers) the rule callbacks act on; they persist over the callback history. -/
 def cbInit (e : Entry) : Files × List Files :=
@@ -108,7 +112,7 @@ def runCb (r : Rule) (e : Entry) (cur : Files × List Files) : (Files × List Fi
   let k := stdConsts
   let pod' := applyQuota e.v2 cur.1 (podEntry k cfg e.be (podFromReconciler e.pod e.ann))
   let ctrs' := (cur.2.zip (range e.pod.length)).map fun (f, i) =>
-    applyQuota e.v2 f (ctrEntry k cfg e.be (ctrFromReconciler e.pod e.ann i))
+    applyQuota e.v2 f (ctrEntry k cfg e.be (ctrFromReconcilerSt (e.ids.getD i true) e.pod e.ann i))
   ((pod', ctrs'), [s!"cb pod {showFiles pod'}"] ++ (ctrs'.zip (range e.pod.length)).map fun (f, i) => s!"cb ctr {i} {showFiles f}")
 
 def stepLine (st : St) (line : String) : St :=
@@ -120,6 +124,24 @@ def stepLine (st : St) (line : String) : St :=
     | some pct => let (r', u) := r.step floatChanged (.nodeRatio pct); { st with rule := r', out := st.out ++ [s!"upd {b2i u}"] }
     | none => emit ["bad-op"]
   | ["rule", "nodebad"] => let (r', u) := r.step floatChanged .nodeBad; { st with rule := r', out := st.out ++ [s!"upd {b2i u}"] }
+  | ["rule", "sloshape", k, e, pol] =>
+    match int? k, int? e, nat? pol with
+    | some k, some e, some pol =>
+      let shape? : Option SloShape := if k == 0 then some .nilSpec else if k == 1 then some .noStrategy
+        else if k == 2 then some (.strategy (e ≠ 0) pol) else none
+      match shape? with
+      | some sh => let (r', u) := r.step floatChanged (.slo (sloEnablesCFS sh)); { st with rule := r', out := st.out ++ [s!"upd {b2i u}"] }
+      | none => emit ["bad-op"]
+    | _, _, _ => emit ["bad-op"]
+  | ["rule", "ratioann", k, p] =>
+    match int? k, int? p with
+    | some k, some p =>
+      let a? : Option RatioAnn := if k == 0 then some .absent else if k == 1 then some .malformed
+        else if k == 2 then some (.value p) else none
+      match a? with
+      | some a => let (r', u) := r.step floatChanged (ratioEv a); { st with rule := r', out := st.out ++ [s!"upd {b2i u}"] }
+      | none => emit ["bad-op"]
+    | _, _ => emit ["bad-op"]
   | ["rule", "slo", e] =>
     match int? e with
     | some e => let (r', u) := r.step floatChanged (.slo (e ≠ 0)); { st with rule := r', out := st.out ++ [s!"upd {b2i u}"] }
@@ -140,12 +162,15 @@ def stepLine (st : St) (line : String) : St :=
     | some (be :: ann :: v2 :: s0 :: q0 :: m0 :: n :: vals) =>
       if vals.length ≠ 4 * n.toNat then emit ["bad-op"] else
       let pod : List (Option Ctr) := (chunks 4 vals).map fun
-        | [d, a, b, c] => if d ≠ 0 then some ({ req := a, lim := b, mem := c } : Ctr) else none
+        | [d, a, b, c] => if d % 2 ≠ 0 then some ({ req := a, lim := b, mem := c } : Ctr) else none
         | _ => none
+      let ids : List Bool := (chunks 4 vals).map fun
+        | d :: _ => decide (d < 2)
+        | _ => true
       match annOf ann pod with
       | none => emit ["bad-op"]
       | some a =>
-        let e : Entry := { be := be ≠ 0, ann := a, v2 := v2 ≠ 0, s0 := s0, q0 := q0, m0 := m0, pod := pod }
+        let e : Entry := { be := be ≠ 0, ann := a, v2 := v2 ≠ 0, s0 := s0, q0 := q0, m0 := m0, pod := pod, ids := ids }
         { st with out := st.out ++ runEntry r e, last := some e, cb := none }
     | _ => emit ["bad-op"]
   | ["cb", m] =>
